@@ -13,7 +13,7 @@ import sys
 
 import wire
 from harness import connect, mk_client, pump_read
-from world import World, pc, raw
+from world import SelfDeadlock, World, pc, raw
 
 
 def pkts(sock, proto=4):
@@ -156,6 +156,18 @@ def F7():
     return None
 
 
+def F19():
+    """C10: protocol error from the broker while connected -> socket closed but is_connected() stays True."""
+    w = World()
+    c = mk_client(w)
+    connect(c, w)
+    w.cur().feed(b"\xf0\x00")
+    c.loop_read()
+    if c.socket() is None and c.is_connected():
+        return "socket() is None but is_connected() is True after a protocol error"
+    return None
+
+
 def F8():
     """C06: WebSocket, transport accepts 5 bytes of a frame -> packet dropped from the queue."""
     w = World()
@@ -275,6 +287,58 @@ def F15():
     return f"SubscriptionIdentifier=[0] packs {bytes(b).hex()}"
 
 
+def F16():
+    """C18: reconnect() inside on_message of an inbound QoS 2 message -> blocks on _in_message_mutex."""
+    w = World()
+    c = mk_client(w, clean=False)
+    res = []
+
+    def on_message(cl, ud, msg):
+        try:
+            cl.reconnect()
+            res.append("returned")
+        except SelfDeadlock as e:
+            res.append(f"would block forever on {e}")
+    c.on_message = on_message
+    connect(c, w)
+    s = w.cur()
+    s.feed(wire.enc_publish(4, b"a", b"p", qos=2, mid=9))
+    pump_read(c)
+    s.feed(wire.enc_ack(4, wire.PUBREL, 9))
+    try:
+        pump_read(c)
+    except SelfDeadlock as e:
+        res.append(f"would block forever on {e}")
+    if res != ["returned"]:
+        return f"reconnect() inside on_message(QoS 2): {res}"
+    return None
+
+
+def F17():
+    """C18: reconnect() inside on_disconnect with on_socket_open installed -> blocks on _in_callback_mutex."""
+    w = World()
+    c = mk_client(w)
+    res = []
+
+    def on_disc(cl, ud, flags, rc, props):
+        try:
+            cl.reconnect()
+            res.append("returned")
+        except SelfDeadlock as e:
+            res.append(f"would block forever on {e}")
+    c.on_disconnect = on_disc
+    c.on_socket_open = lambda cl, ud, sock: None
+    connect(c, w)
+    w.cur().feed_eof()
+    try:
+        c.loop_read()
+    except SelfDeadlock as e:
+        res.append(f"would block forever on {e}")
+    if res != ["returned"]:
+        return f"reconnect() inside on_disconnect with on_socket_open installed: {res}"
+    return None
+
+
 def F18():
     """C10: reconnect() inside the on_disconnect of a completed disconnect() -> new socket closed at once."""
     w = World()
@@ -294,7 +358,7 @@ def F18():
 
 
 ALL = {"F1": F1, "F2": F2, "F3": F3, "F4": F4, "F4b": F4b, "F5": F5, "F6": F6, "F7": F7, "F8": F8, "F9": F9,
-       "F10": F10, "F11": F11, "F12": F12, "F13": F13, "F15": F15, "F18": F18}
+       "F10": F10, "F19": F19, "F11": F11, "F12": F12, "F13": F13, "F15": F15, "F16": F16, "F17": F17, "F18": F18}
 
 
 def run(name):
